@@ -498,6 +498,9 @@ func (n *c36Node) hashName(h []byte) string {
 	if id, ok := n.byHash[common.NewHash(h)]; ok {
 		return strconv.Itoa(id)
 	}
+	if h[0] == 0xff && h[1] <= c36MaxID && bytes.Equal(h[2:], make([]byte, 30)) {
+		return strconv.Itoa(int(h[1])) // the stand-in hash of a block id the scenario never defined
+	}
 	return "?"
 }
 
